@@ -602,3 +602,85 @@ def check_level_down(ctx, F, rule="E-PERM.leveldown"):
     ctx.ob(rule, rule, not fails and n >= 1, "level_down (%s): %s" % (F.where(fid), " || ".join(fails) if fails else
                                                                     "swaps (u, u + 1) and relabels both levels"))
     return n
+
+
+def check_relabel_conditions(ctx, F, rule="E-PERM.relabel.cond"):
+    """`update_levels` / `update_levels_seq`: a level is relabelled (pushed onto the work list resp. passed to
+    `update_level_no`) exactly when its position differs from the stale number its nodes carry; the parallel variant
+    may skip empty levels only.  Path rule on MIR (a *must* rule -- relabelling an already right or an empty level is
+    harmless and not reported): the relabelling call is reachable from the `differs` edge of the comparison and -- in
+    `update_levels` -- from the `is_empty() == false` edge."""
+    from efreelist import origins
+    n = 0
+    for name, sink_rx in (("update_levels", r"Vec::<T, A>::push$"), ("update_levels_seq", r"::update_level_no$")):
+        fid = "oxidd_reorder::set_var_order::" + name
+        m = F.mir.get(fid)
+        if not ctx.anchor(rule, fid, m is not None):
+            continue
+        B = cfg.Body(m)
+        blocks = m["blocks"]
+        sinks = [i for i, t in B.calls() if re.search(sink_rx, cfg.callee_name(t) or "") and not blocks[i]["c"]]
+        problems = []
+        found_cmp = found_empty = False
+        for i in sorted(B.reach):
+            b = blocks[i]
+            if b["c"]:
+                continue
+            for s in b["s"]:
+                rv = s.get("rv") or {}
+                if rv.get("k") == "bin" and rv.get("o") in ("Eq", "Ne") and isinstance(s.get("lhs"), int):
+                    names = [(cfg.callee_name(o[1]) or "") for o in origins(B, m, [rv.get("a")]) + origins(B, m, [rv.get("b")]) if o[0] == "call"]
+                    if any(x.endswith("::level_no") for x in names) and any(re.search(r"into_inner$|::load$", x) for x in names):
+                        t = b["t"]
+                        if t["k"] == "switch" and cfg.op_place(t.get("d")) == s["lhs"]:
+                            found_cmp = True
+                            zero = [blk for v, blk in t["t"] if str(v) == "0"]
+                            eq_e = [t.get("o")] if rv["o"] == "Eq" else zero
+                            ne_e = zero if rv["o"] == "Eq" else [t.get("o")]
+                            re_, rn = set(), set()
+                            for x in eq_e:
+                                if x is not None:
+                                    re_ |= B.reachable_from(x, avoid=(i,))
+                            for x in ne_e:
+                                if x is not None:
+                                    rn |= B.reachable_from(x, avoid=(i,))
+                            if not any(k in rn for k in sinks):
+                                problems.append("a level whose nodes carry a stale number is not relabelled")
+        for c, t in B.calls():
+            if (cfg.callee_name(t) or "").endswith("::is_empty") and not blocks[c]["c"]:
+                dest, nxt = t.get("d"), t.get("t")
+                neg, cur = None, nxt
+                for _ in range(3):
+                    if cur is None:
+                        break
+                    b = blocks[cur]
+                    for st in b["s"]:
+                        rv = st.get("rv") or {}
+                        if rv.get("k") == "un" and rv.get("o") == "Not" and cfg.op_place(rv.get("a", rv.get("op"))) == dest:
+                            neg = st.get("lhs")
+                    tt = b["t"]
+                    if tt["k"] == "switch":
+                        d = cfg.op_place(tt.get("d"))
+                        zero = [blk for v, blk in tt["t"] if str(v) == "0"]
+                        true_e = [tt.get("o")] if d == dest else zero if (neg is not None and d == neg) else None
+                        if true_e is not None:
+                            found_empty = True
+                            reach = set()
+                            for x in true_e:
+                                if x is not None:
+                                    reach |= B.reachable_from(x, avoid=(cur,))
+                            false_e = zero if true_e != zero else [tt.get("o")]
+                            rf = set()
+                            for x in false_e:
+                                if x is not None:
+                                    rf |= B.reachable_from(x, avoid=(cur,))
+                            if not any(k in rf for k in sinks):
+                                problems.append("non-empty levels are skipped / only empty levels are scheduled (the emptiness test is inverted)")
+                        break
+                    cur = tt.get("t") if tt["k"] == "goto" and isinstance(tt.get("t"), int) else None
+        n += 1
+        ok = found_cmp and not problems and (found_empty or name == "update_levels_seq")
+        ctx.ob(rule, "%s:%s" % (rule, name), ok,
+               "%s (%s): %s" % (name, F.where(fid), "relabels exactly the levels whose stale number differs from their position" if ok else
+                                "; ".join(sorted(set(problems))) or "comparison / emptiness test not found"))
+    return n
